@@ -499,6 +499,50 @@ fn user_error_classes() -> Vec<Case> {
     out
 }
 
+
+/// Thrown values whose description has an unusual shape - empty, blank, one or several line breaks, a line
+/// break at the end - as a string, as the message of an Error and of a program-declared error class, and an
+/// instance without a message at all: left uncaught at top level, in a function and through a finally block.
+/// The report's first line is `Unhandled <class>: <first line of the description>`, the description's
+/// further lines follow, then the trace.
+fn description_shapes() -> Vec<Case> {
+    let mut out = Vec::new();
+    let texts = ["", " ", "\n", "a\nb", "a\n", "\n\nz", "one\ntwo\nthree", "tab\there", "\u{e9}\u{20ac}", "trailing space "];
+    for text in texts {
+        for kind in 0..4usize {
+            for shape in 0..3usize {
+                let mut prog: Vec<Stmt> = vec![
+                    class_stmt("OwnError", Some("Error"), None, vec![method(FnKind::Ctor, "new", &["c"], vec![expr_stmt(Expr::SuperInvoke("new".into(), vec![var("c")]))])]),
+                    class_stmt("Bare", None, Some("new"), vec![]),
+                ];
+                let thrown = match kind {
+                    0 => s(text),
+                    1 => invoke(var("Error"), "new", vec![s(text)]),
+                    2 => invoke(var("OwnError"), "new", vec![s(text)]),
+                    _ => invoke(var("Bare"), "new", vec![]),
+                };
+                if kind == 3 && text != "" {
+                    continue;
+                }
+                match shape {
+                    0 => prog.push(st(StmtKind::Throw(thrown))),
+                    1 => {
+                        prog.push(fn_stmt(func("raise", &[], vec![pad(1), st(StmtKind::Throw(thrown))])));
+                        prog.push(expr_stmt(call(var("raise"), vec![])));
+                    }
+                    _ => {
+                        prog.push(st(StmtKind::Try(vec![st(StmtKind::Throw(thrown))], None, Some(vec![print_stmt(s("cleanup"))]))));
+                    }
+                }
+                let mut c = Case::new("R_descriptions_of_every_shape", prog);
+                c.opts = CmpOpts { trace: shape != 2, kind: false };
+                out.push(c);
+            }
+        }
+    }
+    out
+}
+
 fn compile_error_lines(ctx: &Ctx, report: &mut Report) -> usize {
     let base = base_lines();
     // statement starts (index into `base`, 0-based) where a new statement may begin
@@ -673,7 +717,7 @@ fn import_error_messages(ctx: &Ctx, report: &mut Report) -> usize {
 /// programs for C02: every uncaught-error program without modules (the error report itself must not
 /// panic, whatever was raised and handled before)
 pub fn sources_for_c02() -> Vec<String> {
-    runtime_cases(false).into_iter().filter(|c| c.modules.is_empty() && c.family != "R_caught_class").map(|c| crate::ast::print_program(&c.prog, false)).collect()
+    runtime_cases(false).into_iter().chain(user_error_classes()).chain(description_shapes()).filter(|c| c.modules.is_empty() && c.family != "R_caught_class").map(|c| crate::ast::print_program(&c.prog, false)).collect()
 }
 
 pub fn cases_for_c01(thorough: bool) -> Vec<Case> {
@@ -687,11 +731,11 @@ pub fn run(ctx: &Ctx) -> Report {
     let hooks = Hooks { attribute: &|_c, _m, _o, _mm| None, nontrivial: &|_c, m| matches!(&m.outcome, Outcome::Uncaught(u) if u.trace.len() >= 2) || !m.out.is_empty(), fuel: 2_000_000 };
     // (plus C08's programs in which one function is active twice with an outcome waiting in the outer
     // activation's finally block: the uncaught variants' reports are compared entry by entry)
-    let stats = mcheck::run(ctx, runtime_cases(thorough).into_iter().chain(far_line_cases()).chain(user_error_classes()).chain(crate::c08::recursion_from_finally()), &hooks);
+    let stats = mcheck::run(ctx, runtime_cases(thorough).into_iter().chain(far_line_cases()).chain(user_error_classes()).chain(description_shapes()).chain(crate::c08::recursion_from_finally()), &hooks);
     mcheck::fill_report(
         &mut report,
         &stats,
-        "R: every call chain of depth 0-3/4 over link kinds {function, method, static method, lambda, constructor, map callback, reduce callback, fiber body} with the failing statement (12 kinds: throws of 4 value kinds, 6 failing built-ins, throwing callees) at the bottom, in place, inside a module function or as a module body; one statement per line with padding so every line differs. Uncaught variant: class, text (where the model defines it), error kind and the full trace (one entry per active call, innermost first; library frames by name only) must equal M-eval's; caught variant: the handler sees the same class. The same with an earlier, completely handled exception (7 shapes: thrown and caught in place, thrown by a callee, thrown by a function of another module, raised by a built-in, caught after passing a finally block, caught in a loop, handled in another fiber that ran to its end) placed in each active frame of every chain up to depth 2/3 before the failing statement. The same with the call or failing statement at each position wrapped in one or two nested try/finally statements, so that the uncaught error passes through finally blocks (the report lists the calls still active when it is made, each with the line of the statement it was executing when the error was raised). Plus caught==uncaught on the implementation for 26 failing statements including host natives of every ErrorKind, compile-error lines for a stray token before every statement, and the same for a module that does not compile: every attempt to import it (seven placements in one program, then two more programs on the same interpreter) reports ImportError with the module's name, the line and the token; a missing module likewise. Plus the 240 programs of C08's family `recursion_from_a_finally_block` (one function active twice, the outer activation in its finally block with an outcome waiting): class, message and trace of the uncaught variants. Plus every fortieth program of the run-time families placed far down a long file - its first statement (and that of every module) on line 255, 256, 32766..32768, 65534..65537, 70000 and 131071 - and compile errors on such lines; error classes declared by the program one to three levels below each of eight built-in error classes, thrown uncaught in place, from a function, through a finally block and rethrown by a handler: reported under their own class with their message; and compile errors further down a file whose first string has an escape sequence cut off by the end of its line. non-trivial = a trace of at least two entries, or output.",
+        "R: every call chain of depth 0-3/4 over link kinds {function, method, static method, lambda, constructor, map callback, reduce callback, fiber body} with the failing statement (12 kinds: throws of 4 value kinds, 6 failing built-ins, throwing callees) at the bottom, in place, inside a module function or as a module body; one statement per line with padding so every line differs. Uncaught variant: class, text (where the model defines it), error kind and the full trace (one entry per active call, innermost first; library frames by name only) must equal M-eval's; caught variant: the handler sees the same class. The same with an earlier, completely handled exception (7 shapes: thrown and caught in place, thrown by a callee, thrown by a function of another module, raised by a built-in, caught after passing a finally block, caught in a loop, handled in another fiber that ran to its end) placed in each active frame of every chain up to depth 2/3 before the failing statement. The same with the call or failing statement at each position wrapped in one or two nested try/finally statements, so that the uncaught error passes through finally blocks (the report lists the calls still active when it is made, each with the line of the statement it was executing when the error was raised). Plus caught==uncaught on the implementation for 26 failing statements including host natives of every ErrorKind, compile-error lines for a stray token before every statement, and the same for a module that does not compile: every attempt to import it (seven placements in one program, then two more programs on the same interpreter) reports ImportError with the module's name, the line and the token; a missing module likewise. Plus the 240 programs of C08's family `recursion_from_a_finally_block` (one function active twice, the outer activation in its finally block with an outcome waiting): class, message and trace of the uncaught variants. Plus every fortieth program of the run-time families placed far down a long file - its first statement (and that of every module) on line 255, 256, 32766..32768, 65534..65537, 70000 and 131071 - and compile errors on such lines; error classes declared by the program one to three levels below each of eight built-in error classes, thrown uncaught in place, from a function, through a finally block and rethrown by a handler: reported under their own class with their message; thrown values whose description is empty, blank or has line breaks in ten shapes (as a string, as the message of Error and of a program-declared error class, an instance without message), uncaught in three places; and compile errors further down a file whose first string has an escape sequence cut off by the end of its line. non-trivial = a trace of at least two entries, or output.",
         json!({"chain_depth": if thorough { 4 } else { 3 }, "link_kinds": LINKS.len(), "failing_statements": FAILS.len()}),
     );
     let (n_ceq, _bad) = caught_equals_uncaught(ctx, &mut report);
